@@ -43,6 +43,8 @@ ARG_BY_NAME = {
 }
 
 
+REQUIRED_DOMAINS = {"x": [1, 300], "y": [1, 300], "coord": ["B2", "KN301", (300, 300)], "position": [1, 50, -1], "idx": [1, 50]}
+
 # optional parameters that select what is read: every value of these small domains is tried too
 OPTIONAL_DOMAINS = {
     "coord": ["A1", "B1:C2", "B1:B1", "C1:D2", "B2", "D1:E1", (1, 0, 2, 1), (0, 1, 3, 1)],
@@ -132,6 +134,10 @@ def entry_points(obj):
                 ok = False
         if ok:
             out.append(("call", name, kwargs))
+            # required selecting arguments: the edge and far beyond the populated area as well
+            for pn in kwargs:
+                for v in REQUIRED_DOMAINS.get(pn, ()):
+                    out.append(("call", name, {**kwargs, pn: v}))
             for pn, p in sig.parameters.items():
                 if p.default is not inspect._empty and pn in OPTIONAL_DOMAINS:
                     for v in OPTIONAL_DOMAINS[pn]:
